@@ -142,7 +142,9 @@ Fixpoint no_null_keys (j : json) : bool :=
 
 Definition serializer_ok (r : sres json) : Prop := exists j, r = SOk j /\ no_null_keys j = true.
 
-Definition fuel_for (h : heap) : nat := 4 * length h + 8.
+(* recursion budget of the model: quadratic, because a chain of up to |h| containers can sit between two
+   dataclass visits (Proofs/SerializerCyclic.v shows it suffices whenever the walk is finite at all) *)
+Definition fuel_for (h : heap) : nat := (length h + 2) * (length h + 2).
 Definition serialize_top (h : heap) (r : nat) : sres json := ser (fuel_for h) h true [] r.
 
 (* executable guard of the finding, for any heap: the walk of the faithful model does not exhaust its
